@@ -4,7 +4,8 @@ _AG = "quimb/tensor/tnag/core.py"
 _T1 = "quimb/tensor/tn1d/core.py"
 entry_extend(
     "C13", modules=["contracts.c13_ext"], E1=[], LEMMAS=False,
-    PROVIDERS=["contracts.c13_ext.provider"],
+    PROVIDERS=["contracts.c13_ext.provider", "contracts.c13_ext.provider_2d", "contracts.c13_ext.provider_3d",
+               "contracts.c13_ext.provider_1d_envs"],
     TRUSTED=[
         "c13_ext harness: the ast node of each target function is cut out of the file re-read from the checkout on every "
         "run and compiled UNCHANGED (none of the targets is decorated; the harness refuses a decorated target); free names "
@@ -27,9 +28,15 @@ entry_extend(
         "{None, plain, scattering}, progbar, max_bond in {None, given}, 1D where: an int or every ordered tuple of 1..3 "
         "distinct sites of 0..4, info in {None, {}, 'calc', (2,2), (0,3), None-valued}, inplace, method in {canonical, "
         "envs, other}; 2 x 2 symbolic non-symmetric rho and G for the trace pairing",
+        "c13_ext 2D domain: a 3 x 3 lattice; terms = every single site, every ORDERED pair of distinct sites (72, both "
+        "orders), three mixed dictionaries of 3-4 terms (sites and pairs only: the plaquette map of quimb knows nothing "
+        "else); normalized, return_all, autogroup in {False, True}; environments computed by the function or supplied by "
+        "the caller (all 2x2 and 3x3 plaquettes); calc_plaquette_sizes / calc_plaquette_map / plaquette_to_sites / "
+        "is_lone_coo are the real source; networks are structural stand-ins (select_any, |, gate, contract record how "
+        "the contracted network was built; each contract() returns a fresh sympy symbol)",
     ],
     BOUNDED_FOR={
-        "_combine_expansion_expectations": ["loop_expansion", "sloop", "gloop"],
+        "_combine_expansion_expectations": ["gloop_expand", "sloop_expand"],
         "_compute_expecs_maybe_in_parallel": ["compute_local_expectation"],
         "TensorNetworkGenVector.compute_local_expectation_exact": ["compute_local_expectation_exact"],
         "TensorNetworkGenVector.compute_local_expectation_cluster": ["compute_local_expectation_cluster"],
@@ -39,8 +46,11 @@ entry_extend(
         "MatrixProductState.local_expectation_canonical": ["local_expectation_canonical"],
         "MatrixProductState.compute_local_expectation_canonical": ["compute_local_expectation_canonical"],
         "MatrixProductState.compute_local_expectation": ["compute_local_expectation(method"],
+        "TensorNetwork2DVector.compute_local_expectation": ["PEPS.compute_local_expectation", "plaquette"],
+        "PEPS3D.compute_local_expectation": ["PEPS3D.partial_trace / partial_trace_cluster / compute_local_expectation"],
+        "MatrixProductState.compute_local_expectation_via_envs": ["via_envs", "envs"],
     },
-    EXPLANATION="Extension (provider obligations fdx / e2 on the real source of 18 functions, executed natively with "
+    EXPLANATION="Extension (provider obligations fdx / e2 on the real source of 21 functions, executed natively with "
                 "recording stand-ins): the combination table of the cluster / loop expansions for every (combine, "
                 "normalized) pair as exact rational functions (prod: prod e^C * prod n^-C for ANY truthy normalized, sum: "
                 "local / separate / none; a cluster spanning the network gives <G>/<1>); the many-terms helper and its five "
@@ -54,4 +64,16 @@ entry_extend(
                 "labels in the requested order, bra = conjugated relabelled copy, exponent carried, normalised exactly once; "
                 "Tr(G rho); the orthogonality record describes the object it is used with -- self and the caller's record "
                 "when inplace, a copy and a copy of the record otherwise, one record threaded through all terms); the 1D "
-                "method table.")
+                "method table.  2D plaquette route (TensorNetwork2DVector.compute_local_expectation): every term is gated onto "
+                "the ket restricted to a plaquette that contains all its sites, with the sites in the order GIVEN (also when "
+                "the plaquette is looked up by the sorted pair), against bra | environment of that same plaquette; the "
+                "denominator of a term is ket | bra | environment of the SAME plaquette objects; summed forms divide each "
+                "term by its own norm; the five boundary options and extra options reach every environment computation, "
+                "supplied environments are used as they are.  3D (PEPS3D.compute_local_expectation): every option reaches "
+                "partial_trace for every term, ONE store of environments (the caller's, the factory's or a fresh one) is shared "
+                "by all terms, value = Tr(G rho) with rho as returned (2 x 2 symbolic, non-symmetric), dict or sum.  1D "
+                "environment route (compute_local_expectation_via_envs, chain of 4 sites, a site or every ordered tuple of 1..3 "
+                "sites): the operator is gated onto a COPY of the ket section min..max with the sites in the order given, the "
+                "bra section is ungated, the network is completed by exactly the left environment of min and the right "
+                "environment of max when they exist, the single denominator is the whole norm network, each value is divided "
+                "by it exactly once iff normalized; dict or sum.")
